@@ -149,6 +149,15 @@ CHECKS["C19"] = dict(
     note=E2NOTE,
 )
 
+CHECKS["C07"] = dict(
+    engine=E2, category="model_checking", design="§3 C07",
+    technique="symbolic execution of blackbird.load on file layouts with includes: the included programs' modes, call-site modes and bound keyword values are z3 variables; z3 decides impl != reference inlining (modes in increasing order, forked) per path x reference case",
+    text="File layouts (single/repeated/nested includes, two subroutines, templates bound by keyword, mismatched calls) are written to a scratch directory and loaded by the real "
+         "code with every mode number and argument value symbolic and the working directory set elsewhere; z3 decides for all mode numberings whether the loaded program differs "
+         "from the reference inlining; replays steer models towards mode sets whose CPython set order differs from increasing order. Path resolution is observed on these layouts, not solved.",
+    note=E2NOTE,
+)
+
 NOT_YET = "check not built yet in this round (see DESIGN.md §3 for the plan); not claimed"
 
 
